@@ -291,3 +291,6 @@ func StubDB() *sql.DB                            { panic("verifrt.StubDB: engine
 func Pending(steps ...func())                    { panic("verifrt.Pending: engine only") }
 func SQLModel()                                  { panic("verifrt.SQLModel: engine only") }
 func Replace(fn any, with any)                   { panic("verifrt.Replace: engine only") }
+
+// Nop is the no-op cancel function the engine hands out for context.WithTimeout/WithCancel.
+func Nop() {}
